@@ -152,7 +152,7 @@ func GenC02Refusals(seed uint64, tier string) *Plan {
 			}
 		}
 		g.entityHeaders(st)
-		g.commit(st, hints)
+		g.commit(g.goneClient(st), hints)
 	}
 	return g.plan
 }
@@ -239,12 +239,36 @@ func GenC02Broken(seed uint64, tier string) *Plan {
 				}
 			}
 			g.entityHeaders(st)
-			g.commit(st, nil)
+			g.commit(g.goneClient(st), nil)
 			continue
 		}
-		g.commit(g.genRequest(), nil)
+		st := g.genRequest()
+		switch st.Method {
+		case "DELETE", "MKCOL", "COPY", "MOVE":
+			if len(st.Body) == 0 && g.r.Chance(0.12) {
+				// a body on a method that has no use for one, and it breaks off
+				st.Body = []byte(rt.Pick(g.r, []string{"x", "ignored body\n", "<?xml version=\"1.0\"?><D:lockinfo xmlns:D=\"DAV:\"/>"}))
+				st.Chunked = g.r.Chance(0.5)
+				st.Faults = append(st.Faults, g.bodyFault(len(st.Body)))
+			}
+		}
+		g.commit(g.goneClient(st), nil)
 	}
 	return g.plan
+}
+
+// goneClient: the request context is cancelled - before the handler starts, or
+// just before its k-th file-system call - although every stream stays healthy
+// (a deadline of some middleware, a client that hung up after its last byte).
+func (g *gen) goneClient(st *Step) *Step {
+	if len(st.Faults) == 0 && g.r.Chance(0.1) {
+		if g.r.Chance(0.3) {
+			st.Faults = append(st.Faults, Fault{Seam: "ctx", Kind: "before"})
+		} else {
+			st.Faults = append(st.Faults, Fault{Seam: "ctx", Kind: "at-call", At: g.r.Intn(14)})
+		}
+	}
+	return st
 }
 
 // GenC02Exhaustive cuts one small upload at every offset with every kind
@@ -452,7 +476,15 @@ func GenC03(seed uint64, tier string) *Plan {
 	g.genSetup()
 	n := g.stepCount()
 	hm := []string{"OPTIONS", "GET", "HEAD", "PUT", "DELETE", "MKCOL", "COPY", "MOVE", "PROPFIND", "PROPPATCH", "LOCK", "POST"}
+	reconfAt := -1
+	if g.r.Chance(0.12) {
+		reconfAt = 1 + g.r.Intn(n)
+	}
 	for i := 0; i < n; i++ {
+		if i == reconfAt {
+			// an operator points the running handler at another directory
+			g.plan.Steps = append(g.plan.Steps, Step{Kind: "reconfigure", DelayNS: 1000})
+		}
 		if g.r.Chance(0.35) {
 			g.commit(g.genRequest(), nil) // keeps a tree alive for the hostile requests to aim at
 			continue
